@@ -45,7 +45,14 @@ pub fn run(rep: &mut Report, thorough: bool) {
         let rx2 = b.anon(1, 0, 7, Fill::Zero);
         assert_eq!(b.spec.regions[rx2].addr, rxa + rxl);
         // a principal candidate WITHOUT execute permission (heap-like data a crash handler may care about)
-        let nx = b.anon(2, 5, 6, Fill::Zero);
+        // (in every second target it is the LOWEST mapping of the whole process, far below the
+        // executable image: the one mapping the writer's entry-point swap moves out of address order)
+        let nx = if ti % 2 == 1 {
+            b.alloc(2, 5);
+            b.add_region(Region { addr: 0x800_0000, len: 2 * PAGE, prot: 6, kind: RegionKind::Anon, fill: Fill::Zero, pokes: Vec::new(), unlink_after: false })
+        } else {
+            b.anon(2, 5, 6, Fill::Zero)
+        };
         let (nxa, nxl) = (b.spec.regions[nx].addr, b.spec.regions[nx].len);
         // a library whose two pieces have an inaccessible anonymous page between them and no
         // executable piece in front of it: r--p file / ---p anon / r-xp file. The writer folds the
@@ -112,7 +119,7 @@ pub fn run(rep: &mut Report, thorough: bool) {
                 }
                 _ => {}
             }
-            let shape = StackShape { pages, sp_offset: sp_off as i64, fill_pattern: false, slots, ..Default::default() };
+            let shape = StackShape { pages, sp_offset: sp_off as i64, fill_pattern: false, slots, low: k % 3 == 2, ..Default::default() };
             let at_end = matches!(h, Holder::IpAtEnd) && !b.sentinels.iter().any(|s| s.stub_addr == rxa + rxl - STUB_PAUSE_AFTER_SYSCALL);
             let stub_at = if matches!(h, Holder::IpInMapping) {
                 Some((rx, rxa + 64 + 32 * k as u64))
